@@ -25,14 +25,14 @@ Definition run_C02 (c : c02case) : list Z :=
 (* It is evaluated on the tables the IMPLEMENTATION holds before and after each call and speaks
    about the room histories through `granted` only.  It returns the list of violations found:
      0  a change of the tables that the property does not allow and that is no listed finding
-     1  a reference (or the tombstone of a stored reference) whose source row is not a row of
-        that entity in the room of the call / of the tombstone
-     2  a row removed by a tombstone that names another entity, whose author lacks the needed
-        right for the entity of the removed row
+        (this includes the repaired defects: a reference whose source row is not a row of that
+        entity in the room of the call, a row removed by a tombstone naming another entity,
+        a row without JSON content for an entity with required fields)
+     1  the tombstone of a stored reference whose source row is not a row of that entity in the
+        room of the tombstone
      3  a row replaced by a row of another entity, whose author lacks the needed right for the
         entity of the replaced row
-     4  another author's reference replaced without the all-rows right
-     5  a row without JSON content stored for an entity that has required fields *)
+     4  another author's reference replaced without the all-rows right *)
 
 Definition grantedR (defs : list (uid * list event)) (rid : uid) (k : key) (e : entity) (d : Z) (t : right_t) : bool :=
   known_room defs rid && granted (evs_of defs rid) k e d t.
@@ -41,10 +41,6 @@ Definition has_tag {A} (tag : A -> N) (l : list A) (t : N) : bool := existsb (fu
 Definition same_tags {A} (tag : A -> N) (l1 l2 : list A) : bool :=
   forallb (fun x => has_tag tag l2 (tag x)) l1 && forallb (fun x => has_tag tag l1 (tag x)) l2.
 Definition frame_viol (b : bool) : list Z := if b then [] else [0].
-
-(* conformance as the property reads it: a row without JSON content carries no field at all *)
-Definition spec_conform (fs : list field) (j : option json) : bool :=
-  forallb (field_ok (match j with Some o => o | None => [] end)) fs.
 
 Definition node_entitled (defs : list (uid * list event)) (dm : dmodel) (R : uid) (before : store) (x : rnode) : list Z :=
   match n_ent x with
@@ -67,7 +63,6 @@ Definition node_entitled (defs : list (uid * list event)) (dm : dmodel) (R : uid
           if negb (n_sig_ok x && negb (n_too_big x) && opt_eqb N.eqb (n_room x) (Some R) && conform fs (n_json x) && rights_for en)
           then [0]
           else
-            (if spec_conform fs (n_json x) then [] else [5]) ++
             match old with
             | Some o => match n_ent o with
                         | Some eo => if N.eqb eo en || rights_for eo then [] else [3]
@@ -89,16 +84,13 @@ Definition viol_nodes defs dm (R : uid) (batch : list rnode) (before after : sto
                      else if existsb (fun x => N.eqb (n_id x) (n_id y) && has_tag n_tag batch (n_tag x)) (s_nodes after) then []
                      else [0]) (s_nodes before).
 
-Definition src_in_room (nodes : list rnode) (src : uid) (R : uid) (en : entity) : bool :=
-  existsb (fun n => N.eqb (n_id n) src && opt_eqb N.eqb (n_room n) (Some R) && oent_eqb (n_ent n) (Some en)) nodes.
-
 Definition edge_entitled defs (R : uid) (before after : store) (x : redge) : list Z :=
   match e_ent x with
   | None => [0]
   | Some en =>
-      if negb (e_sig_ok x && grantedR defs R (e_author x) en (e_cdate x) MutateSelf) then [0]
+      if negb (e_sig_ok x && grantedR defs R (e_author x) en (e_cdate x) MutateSelf &&
+               src_in_room (s_nodes after) (e_src x) R en) then [0]
       else
-        (if src_in_room (s_nodes after) (e_src x) R en then [] else [1]) ++
         match find (fun y => same_edge_pk y x) (s_edges before) with
         | Some o => if N.eqb (e_author o) (e_author x) || grantedR defs R (e_author x) en (e_cdate x) MutateAll then [] else [4]
         | None => []
@@ -116,34 +108,40 @@ Definition viol_edges defs (R : uid) (batch : list redge) (before after : store)
                      else if existsb (fun x => same_edge_pk x y && has_tag e_tag batch (e_tag x)) (s_edges after) then []
                      else [0]) (s_edges before).
 
-Definition ndel_entitled defs (before : store) (d : rndel) : list Z :=
+(* a tombstone d that comes after the entries `prefix` of the same answer: the row it removes is the
+   row of its id, room and a version not newer than the one it names — unless an earlier entry of
+   the answer already designates that row.  It must name that row's entity. *)
+Definition ndel_entitled defs (before : store) (prefix : list rndel) (d : rndel) : bool :=
   match nd_ent d with
-  | None => [0]
+  | None => false
   | Some en =>
-      let hit := find (node_hit d) (s_nodes before) in          (* the row it removes *)
+      let hit := match find (node_hit d) (s_nodes before) with
+                 | Some o => if existsb (fun e => node_hit e o) prefix then None else Some o
+                 | None => None
+                 end in
       let t := match hit with Some o => needed (N.eqb (n_author o) (nd_author d)) | None => MutateSelf end in
-      if negb (nd_sig_ok d && grantedR defs (nd_room d) (nd_author d) en (nd_date d) t) then [0]
-      else match hit with
-           | Some o => match n_ent o with
-                       | Some eo => if N.eqb eo en || grantedR defs (nd_room d) (nd_author d) eo (nd_date d) t then [] else [2]
-                       | None => []
-                       end
-           | None => []
-           end
+      nd_sig_ok d && grantedR defs (nd_room d) (nd_author d) en (nd_date d) t &&
+      match hit with Some o => oent_eqb (n_ent o) (Some en) | None => true end
+  end.
+(* x is entitled at one of the positions of the answer where an entry carries its tag *)
+Fixpoint entitled_at defs (before : store) (prefix rest : list rndel) (x : rndel) : bool :=
+  match rest with
+  | [] => false
+  | y :: tl => (N.eqb (nd_tag y) (nd_tag x) && ndel_entitled defs before prefix x)
+               || entitled_at defs before (prefix ++ [y]) tl x
   end.
 
 Definition viol_ndels defs (batch : list rndel) (before after : store) : list Z :=
   frame_viol (same_tags e_tag (s_edges before) (s_edges after)) ++
   frame_viol (same_tags ed_tag (s_edels before) (s_edels after)) ++
   flat_map (fun d => if has_tag nd_tag (s_ndels before) (nd_tag d) then []
-                     else if negb (has_tag nd_tag batch (nd_tag d)) then [0]
-                     else ndel_entitled defs before d) (s_ndels after) ++
+                     else if entitled_at defs before [] batch d then [] else [0]) (s_ndels after) ++
   flat_map (fun y => if has_tag nd_tag (s_ndels after) (nd_tag y) then []
                      else if existsb (fun d => same_ndel_pk d y && has_tag nd_tag batch (nd_tag d)) (s_ndels after) then []
                      else [0]) (s_ndels before) ++
-  (* a row disappears only under an entitled tombstone of this call for its id and room; nothing appears *)
+  (* a row disappears only under an entitled tombstone of this call designating it; nothing appears *)
   flat_map (fun y => if has_tag n_tag (s_nodes after) (n_tag y) then []
-                     else if existsb (fun d => node_hit d y && negb (existsb (Z.eqb 0) (ndel_entitled defs before d))) batch then []
+                     else if existsb (fun d => node_hit d y && ndel_entitled defs before [] d) batch then []
                      else [0]) (s_nodes before) ++
   frame_viol (forallb (fun x => has_tag n_tag (s_nodes before) (n_tag x)) (s_nodes after)).
 
